@@ -314,6 +314,34 @@ def c18(run):
                        distinct_nontrivial=st.get("ops", 0))
 
 
+def c09(run):
+    binary = vlib.build()
+    quick = run.tier == "quick"
+    # exhaustive model check of the rewrite rules + emission of the pairs on which a rewrite fires
+    cfg = gen_cfg(run.tier, run.seed, 24 if quick else 40, ["MergeSound", "MergeWidens", "PropagateSound", "EmitOpt"])
+    scs = vlib.generate(run, "Optimizer", cfg, "opt", fam="C09", cap=(5000 if quick else 60000), timeout=3000)
+    log("Optimizer.tla: %s pairs model-checked, %d scenarios emitted" % (run.cov["gen"][-1].get("enumerated"), len(scs)))
+    # the general query families and random expressions, too (offsets / @ on the selectors, larger expressions)
+    scs += all_scenarios(run, 150, 3000, only=("bin", "cmp", "fn"))
+    scs += vlib.gen_random(run, binary, "compose", 600 if quick else 15000, "C09")
+    chunks = max(1, min(vlib.NCPU // 2, len(scs) // 300))
+    traces = vlib.replay(run, binary, "optim", scs, "op", chunks=chunks)
+    st = session_validate(run, traces, lambda clause, fam: ["C09"] if clause == "Agree" else (["C13"] if clause == "ProcessDead" else []))
+    if st.get("obs", 0) == 0:
+        raise Infra("vacuous run")
+    return vlib.finish(run, "model_checking",
+                       rule=("Optimizer.tla (MergeSelects heap / subset test / filter derivation / in-engine filter, PropagateMatchers union) is "
+                             "model-checked exhaustively over every ordered pair of selectors built from <= 2 matchers of the tier's alphabet "
+                             "(2 keys x {=, !=, =~, !~} x values incl. \"\" and regexes accepting \"\", repeated keys) on the dataset with every "
+                             "label-presence combination: rewritten selection = original selection, joined pairs unchanged. The pairs on which a "
+                             "rewrite fires (seeded residue class) are emitted in 10 syntactic positions and replayed under 8 optimizer sets "
+                             "(none, each alone, default, all, both orders of merge/propagate), together with general and random expressions; "
+                             "SessionTrace.tla (result independent of the optimizer set) is validated by TLC. distinct_nontrivial = scenarios x "
+                             "optimizer sets beyond the first."),
+                       assumptions=["the Go comparator's classes (1e-9)", "errors are compared by presence"],
+                       distinct_nontrivial=st.get("obs", 0) - st.get("keys", 0))
+
+
 def c07(run):
     binary = vlib.build()
     mc_volcano(run)
@@ -337,4 +365,4 @@ def c07(run):
                        distinct_nontrivial=st.get("obs", 0) - st.get("keys", 0))
 
 
-RECIPES = {"C01": c01, "C07": c07, "C18": c18, "C19": c19, "C02": c02, "C03": c03, "C04": c04, "C05": c05, "C06": c06}
+RECIPES = {"C01": c01, "C07": c07, "C09": c09, "C18": c18, "C19": c19, "C02": c02, "C03": c03, "C04": c04, "C05": c05, "C06": c06}
